@@ -162,6 +162,8 @@ variables
    stored = [ii \in Insts |-> [mm \in Machines |-> <<>>]],     \* payloads put into a queue / the pool, in order
    dispd = [ii \in Insts |-> [mm \in Machines |-> <<>>]],      \* payloads dispatched, in order
    defd = [ii \in Insts |-> {}],                                \* payloads that were deferred at least once
+   defseq = [ii \in Insts |-> <<>>],                            \* every deferral [p, t] in order (first occurrences = arrival order)
+   hdl = [ii \in Insts |-> <<>>],                               \* previously deferred occurrences [p, t] in the order they were finally handled
    dropped = [ii \in Insts |-> {}],                             \* payloads swallowed by a blocking state or a documented queue reset
    pre = [blocked |-> FALSE, quiet |-> TRUE, act |-> <<>>], lastcall = [op |-> "none", i |-> 0, e |-> "", p |-> 0];
 
@@ -287,7 +289,7 @@ A2: while (a_k <= Len(a_acts)) {
           if (IsB) { dq[a_i][a_m] := Append(dq[a_i][a_m], [occ |-> a_occ, seq |-> curseq[a_i][a_m] + 1, bnd |-> a_i]); }
           else { pool[a_i][a_m] := Append(pool[a_i][a_m], PoolEv(a_occ, IF processing[a_i][a_m] THEN seqcnt[a_i][a_m] ELSE seqcnt[a_i][a_m] - 1)); };
           obs := Append(obs, [k |-> "deferred", i |-> a_i, m |-> a_m, id |-> "action", e |-> a_occ.t, p |-> a_occ.p, r |-> TRUE, x |-> 0]);
-          defd[a_i] := defd[a_i] \cup {a_occ.p};
+          defd[a_i] := defd[a_i] \cup {a_occ.p}; defseq[a_i] := Append(defseq[a_i], [p |-> a_occ.p, t |-> a_occ.t]);
        } else {
           call Callback("a", a_i, a_m, a_acts[a_k], a_occ, -1);
        };
@@ -407,7 +409,7 @@ K5: while (k_pk <= Len(pool[k_i][k_m]) /\ ~k_stop) {
           pool[k_i][k_m] := SubSeq(pool[k_i][k_m], 1, k_pk-1) \o SubSeq(pool[k_i][k_m], k_pk+1, Len(pool[k_i][k_m]));
        } else if (k_cur.kind = "ev" /\ (k_cur.seq = seqcnt[k_i][k_m] \/ IsDeferredM(k_i, k_m, k_cur.occ.t))) {
           k_pk := k_pk + 1;
-          if (IsDeferredM(k_i, k_m, k_cur.occ.t)) { defd[k_i] := defd[k_i] \cup {k_cur.occ.p}; };
+          if (IsDeferredM(k_i, k_m, k_cur.occ.t)) { defd[k_i] := defd[k_i] \cup {k_cur.occ.p}; defseq[k_i] := Append(defseq[k_i], [p |-> k_cur.occ.p, t |-> k_cur.occ.t]); };
        } else {
           pool[k_i][k_m][k_pk].marked := TRUE;
           if (k_cur.kind = "ev") { call PEI(k_i, k_m, k_cur.occ, {"pool"}); }
@@ -457,7 +459,8 @@ R1: if (r_row.g # <<>>) {
        call EvalG(r_i, r_m, r_row.g, r_occ);
 R2:    if (exc) { return; } else if (ret = 0) { ret := 2; goto R9; };
     };
-R3: obs := Append(obs, [k |-> "take", i |-> r_i, m |-> r_m, id |-> IF r_c.tab = "itab" THEN r_c.st ELSE r_c.tab, e |-> r_occ.t, p |-> r_c.idx, r |-> r_row.int, x |-> r_r]);
+R3: if (r_occ.p \in defd[r_i]) { hdl[r_i] := Append(hdl[r_i], [p |-> r_occ.p, t |-> r_occ.t, m |-> r_m]); };
+    obs := Append(obs, [k |-> "take", i |-> r_i, m |-> r_m, id |-> IF r_c.tab = "itab" THEN r_c.st ELSE r_c.tab, e |-> r_occ.t, p |-> r_c.idx, r |-> r_row.int, x |-> r_r]);
 R3x: if (r_row.int) {
        call RunAct(r_i, r_m, r_row.a, r_occ);
 R3b:   if (~exc) { obs := Append(obs, [k |-> "taken", i |-> r_i, m |-> r_m, id |-> r_row.src, e |-> r_occ.t, p |-> r_c.idx, r |-> TRUE, x |-> r_r]); };
@@ -491,7 +494,7 @@ C1: while (ch_k <= Len(ch_cands) /\ ~ch_done) {
        } else if (ch_cands[ch_k].c = "defer") {
           dq[ch_i][ch_m] := Append(dq[ch_i][ch_m], [occ |-> ch_occ, seq |-> curseq[ch_i][ch_m] + 1, bnd |-> ch_i]);
           obs := Append(obs, [k |-> "deferred", i |-> ch_i, m |-> ch_m, id |-> "state", e |-> ch_occ.t, p |-> ch_occ.p, r |-> TRUE, x |-> 0]);
-          defd[ch_i] := defd[ch_i] \cup {ch_occ.p};
+          defd[ch_i] := defd[ch_i] \cup {ch_occ.p}; defseq[ch_i] := Append(defseq[ch_i], [p |-> ch_occ.p, t |-> ch_occ.t]);
           ret := 4;
        } else {
           call RowExec(ch_i, ch_m, ch_r, ch_cands[ch_k], ch_occ);
@@ -523,7 +526,7 @@ D1: while (d_r <= NReg(d_m)) {
           dq[d_i][d_m] := Append(dq[d_i][d_m], [occ |-> d_occ, seq |-> curseq[d_i][d_m] + 1, bnd |-> d_i]);
           obs := obs \o << [k |-> "disp", i |-> d_i, m |-> d_m, id |-> active[d_i][d_m][d_r], e |-> d_occ.t, p |-> d_r, r |-> TRUE, x |-> d_occ.p],
                            [k |-> "deferred", i |-> d_i, m |-> d_m, id |-> "state", e |-> d_occ.t, p |-> d_occ.p, r |-> TRUE, x |-> 0] >>;
-          defd[d_i] := defd[d_i] \cup {d_occ.p};
+          defd[d_i] := defd[d_i] \cup {d_occ.p}; defseq[d_i] := Append(defseq[d_i], [p |-> d_occ.p, t |-> d_occ.t]);
           ret := 4;
        } else {
           obs := Append(obs, [k |-> "disp", i |-> d_i, m |-> d_m, id |-> active[d_i][d_m][d_r], e |-> d_occ.t, p |-> d_r, r |-> TRUE, x |-> d_occ.p]);
@@ -568,7 +571,7 @@ P1: if (IsB) {
           pool[p_i][p_m] := Append(pool[p_i][p_m], PoolEv(p_occ, seqcnt[p_i][p_m] - 1));
           if (~processing[p_i][p_m]) {
              obs := Append(obs, [k |-> "deferred", i |-> p_i, m |-> p_m, id |-> "state", e |-> p_occ.t, p |-> p_occ.p, r |-> TRUE, x |-> 0]);
-             defd[p_i] := defd[p_i] \cup {p_occ.p};
+             defd[p_i] := defd[p_i] \cup {p_occ.p}; defseq[p_i] := Append(defseq[p_i], [p |-> p_occ.p, t |-> p_occ.t]);
           } else if (p_occ.t # "none") { stored[p_i][p_m] := Append(stored[p_i][p_m], p_occ.p); };
           ret := 4; return;
        } else { seqcnt[p_i][p_m] := seqcnt[p_i][p_m] + 1; };
@@ -655,6 +658,7 @@ M0: while (TRUE) {
           stored := [ii \in Insts |-> [mm \in Machines |-> <<>>]];
           dispd := [ii \in Insts |-> [mm \in Machines |-> <<>>]];
           defd := [ii \in Insts |-> {}]; dropped := [ii \in Insts |-> {}];
+          defseq := [ii \in Insts |-> <<>>]; hdl := [ii \in Insts |-> <<>>];
           gvmemo := [gg \in Def.guards |-> "u"];
           lastcall := [op |-> "none", i |-> 0, e |-> "", p |-> 0]; pre := [blocked |-> FALSE, quiet |-> TRUE, act |-> <<>>];
        } or {
@@ -729,7 +733,7 @@ M0: while (TRUE) {
              mq[cc.j] := mq[cc.i]; dq[cc.j] := dq[cc.i]; curseq[cc.j] := curseq[cc.i];      \* closures keep the object they were bound to
              pool[cc.j] := pool[cc.i]; seqcnt[cc.j] := seqcnt[cc.i]; hist[cc.j] := hist[cc.i];
              ledger[cc.j] := ledger[cc.i]; sawexc[cc.j] := sawexc[cc.i]; stored[cc.j] := stored[cc.i]; dispd[cc.j] := dispd[cc.i];
-             defd[cc.j] := defd[cc.i]; dropped[cc.j] := dropped[cc.i];
+             defd[cc.j] := defd[cc.i]; dropped[cc.j] := dropped[cc.i]; defseq[cc.j] := defseq[cc.i]; hdl[cc.j] := hdl[cc.i];
              ret := 0;
           };
        };
